@@ -469,6 +469,9 @@ func c13(c *ev.Ctx) {
 		}
 	})
 	c13IllegalAnywhere(c)
+	// an invalid script stays invalid: refused on an evaluator that ran another script before,
+	// and refused again when Prepare is asked a second and a third time (stream shared with C20)
+	c20RePrepare(c)
 }
 
 // c13IllegalAnywhere: an illegal character put between any two tokens of a valid generated
